@@ -57,19 +57,23 @@ def variant(tag: str, patch: str, reverse: bool, base: dict[str, set[str]], prop
         shutil.rmtree(tmp, ignore_errors=True)
 
 
-def main() -> None:
-    tags = sys.argv[1:]
+def all_items() -> list[tuple[str, str, bool]]:
     items: list[tuple[str, str, bool]] = []
     sd = os.path.join(VERIF, "seeded")
     for t_ in sorted(os.listdir(sd)):
-        if not tags or t_ in tags:
+        if os.path.isfile(os.path.join(sd, t_, "patch.diff")):
             items.append((t_, os.path.join(sd, t_, "patch.diff"), False))
     fx = os.path.join(VERIF, "selftest", "fixes")
     if os.path.isdir(fx):
         for f in sorted(os.listdir(fx)):
-            t_ = "fix-" + f.replace(".diff", "")
-            if f.endswith(".diff") and (not tags or t_ in tags):
-                items.append((t_, os.path.join(fx, f), True))
+            if f.endswith(".diff"):
+                items.append(("fix-" + f.replace(".diff", ""), os.path.join(fx, f), True))
+    return items
+
+
+def main() -> None:
+    tags = sys.argv[1:]
+    items = [it for it in all_items() if not tags or it[0] in tags]
     props = PROPS
     evdir = tempfile.mkdtemp(prefix="sb_base_")
     base: dict[str, set[str]] = {}
@@ -78,7 +82,7 @@ def main() -> None:
             base[prop] = set(lines)
     shutil.rmtree(evdir, ignore_errors=True)
     results = []
-    with cf.ThreadPoolExecutor(6) as ex:
+    with cf.ThreadPoolExecutor(10) as ex:
         futs = [ex.submit(variant, t_, p, rev, base, props) for t_, p, rev in items]
         for f in futs:
             r = f.result()
@@ -86,10 +90,20 @@ def main() -> None:
             print(f"{r['tag']}: {r['status']} {' '.join(r.get('by', []))} {r.get('detail', '')}", flush=True)
             for p, v in r.get("findings", {}).items():
                 print(f"    {p}: {v[0][:170]}")
-    out = os.path.join(VERIF, "seeded", "SCOREBOARD.json") if not tags else None
-    if out:
-        with open(out, "w") as f:
-            json.dump(results, f, indent=1)
+    out = os.path.join(VERIF, "seeded", "SCOREBOARD.json")
+    old = []
+    if tags and os.path.exists(out):
+        with open(out) as f:
+            old = [r for r in json.load(f) if r["tag"] not in {x["tag"] for x in results}]
+    merged = sorted(old + results, key=lambda r: r["tag"])
+    with open(out, "w") as f:
+        json.dump(merged, f, indent=1)
+    # index used by the thorough tier's self-test: which property detects which variant
+    paths = {t_: (os.path.relpath(p, VERIF), rev) for t_, p, rev in all_items()}
+    index = {r["tag"]: {"patch": paths[r["tag"]][0], "reverse": paths[r["tag"]][1], "by": r.get("by", [])} for r in merged if r["status"] == "DETECTED" and r["tag"] in paths}
+    os.makedirs(os.path.join(VERIF, "selftest"), exist_ok=True)
+    with open(os.path.join(VERIF, "selftest", "index.json"), "w") as f:
+        json.dump(index, f, indent=1, sort_keys=True)
     det = sum(1 for r in results if r["status"] == "DETECTED")
     print(f"{det}/{len(results)} detected")
 
